@@ -18,7 +18,7 @@ from ..explore import faults as F
 PID = "C18"
 LEVEL = "fault_enumeration"
 TECHNIQUE = ("exhaustive fault enumeration: an exception injected at every library call site (first and last instance; thorough: every instance) of every export "
-             "x target pre-state x converter-stub behaviour, file-system snapshot oracle; plus every export/edit/export history up to depth 2 rounds against a fresh reference")
+             "x target pre-state x converter behaviour (stubs, and the library's own converter driving a stand-in soffice), file-system snapshot oracle; plus every export/edit/export history up to depth 2 rounds against a fresh reference")
 LEVEL_TEXT = ("Every function-call boundary inside the library during an export is a crash point; each is exercised (per site in quick, per instance in thorough) for every "
               "export method, target pre-state and converter behaviour, and the complete sandbox (target dir + private temp dir) is compared before/after. "
               "All-or-nothing is a statement about every failure point, which only enumeration of the failure points decides.")
@@ -190,11 +190,11 @@ def eval_case(case: dict) -> dict:
     cnt = {"runs": 0, "faults_propagated": 0, "faults_swallowed": 0, "exports_ok": 0, "exports_raised": 0}
 
     def one(fault_at=None, cls=F.Fault, second=None, record=False):
-        r = F.run_export(make, method, stub, pre, fault_at=fault_at, fault_cls=cls, record_sites=record, second_fault_at=second, target_name=tname)
+        r = F.run_export(make, method, stub, pre, fault_at=fault_at, fault_cls=cls, record_sites=record, second_fault_at=second, target_name=tname, tmp_other_fs=bool(case.get("tmpfs")))
         cnt["runs"] += 1
         cnt["exports_ok" if r["result"][0] == "ok" else "exports_raised"] += 1
         for sig, detail in judge(r, method, stub, pre):
-            viol.append({"klass": None, "sig": f"{sig}-{method}", "detail": f"write_{method} doc={kind} target={pre}{' name=' + tname if tname else ''} converter={stub} fault_at={fault_at}"
+            viol.append({"klass": None, "sig": f"{sig}-{method}", "detail": f"write_{method} doc={kind} target={pre}{' name=' + tname if tname else ''}{' tmp-on-other-fs' if case.get('tmpfs') else ''} converter={stub} fault_at={fault_at}"
                                                                           f"{'/' + str(second) if second else ''} ({cls.__name__ if fault_at else 'no fault'}): {detail}"})
         return r
 
@@ -287,11 +287,16 @@ def plan(run):
     for m in METHODS:
         for pre in ("absent", "exists_same"):
             base.append({"mode": "nofault", "method": m, "stub": (None if m == "rtf" else "ok"), "pre": pre, "doc": "ctrl"})
+    # the temporary directory on another file system than the target (TMPDIR on tmpfs, reports on disk): a rename between them fails
+    for m in METHODS:
+        for pre in PRE:
+            for stub in ((None,) if m == "rtf" else ("ok", "raise_after", "real_ok")):
+                base.append({"mode": "nofault", "method": m, "stub": stub, "pre": pre, "doc": "table", "tmpfs": True})
     info = {}
 
     def on_res(r):
         c = r["_case"]
-        if "site_points" in r and not c.get("target_name") and c["doc"] != "ctrl":
+        if "site_points" in r and not c.get("target_name") and c["doc"] != "ctrl" and not c.get("tmpfs"):
             info[(c["method"], c["stub"], c["pre"], c["doc"])] = (r["ncalls"], r["site_points"], r["nsites"])
 
     run.layer("matrix-no-fault", "mc.props.c18:eval_case", base, chunk=4, total=len(base), on_result=on_res)
